@@ -5,7 +5,7 @@ decision prefix; at a fresh decision point each alternative is checked for satis
 z3 and the feasible ones not taken are queued.  The python heap *is* the program state, so no
 state copying is needed and references / iterators can be ordinary python objects.
 """
-import re, sys, time, copy
+import re, sys, time, copy, os
 from fractions import Fraction
 import z3
 
@@ -18,6 +18,20 @@ sys.setrecursionlimit(20000)
 INT_TYS = {'u8': (False, 8), 'u16': (False, 16), 'u32': (False, 32), 'u64': (False, 64), 'u128': (False, 128),
            'usize': (False, 64), 'i8': (True, 8), 'i16': (True, 16), 'i32': (True, 32), 'i64': (True, 64),
            'i128': (True, 128), 'isize': (True, 64), 'char': (False, 32), 'bool': (False, 1)}
+
+
+_subst_cache = {}
+
+
+def _subst_env(text, env):
+    key = (text, tuple(sorted(env.items())))
+    r = _subst_cache.get(key)
+    if r is None:
+        r = text
+        for k, v in env.items():
+            r = re.sub(r'(?<![\w:])' + re.escape(k) + r'(?![\w])', lambda m: v, r)
+        _subst_cache[key] = r
+    return r
 
 
 def wrap_int(v, signed, bits):
@@ -201,7 +215,7 @@ def deep_clone(v):
     if isinstance(v, RString):
         return RString(v.s)
     if isinstance(v, Closure):
-        return Closure(v.name, [deep_clone(x) for x in v.caps])
+        return Closure(v.name, [deep_clone(x) for x in v.caps], v.env)
     return v  # scalars, FV (immutable), Ref (pointer copy), str, Opaque
 
 
@@ -489,6 +503,8 @@ def strip_ref(t):
 def ty_head(t):
     """type constructor without generic arguments and without path prefix"""
     t = strip_ref(norm_ty(t))
+    if t.startswith('['):
+        return 'slice'
     k = t.find('<')
     if k > 0:
         t = t[:k]
@@ -528,6 +544,8 @@ class Interp:
                         self.closures[m.group(0)] = b
         self._resolve_cache = {}
         self.self_stack = []
+        self.tyenv = []
+        self._generics_cache = {}
         self._span_cache = {}
         from . import models
         self.models = models.Models(self)
@@ -690,7 +708,7 @@ class Interp:
         if k == 'const':
             return self.const(body, op[1])
         if k == 'fnitem':
-            return FnItem(op[1])
+            return FnItem(self.subst(op[1]))
         raise Unsupported('operand ' + k)
 
     _int_const = re.compile(r'(-?[\d_]+)_(u8|u16|u32|u64|u128|usize|i8|i16|i32|i64|i128|isize)$')
@@ -726,8 +744,8 @@ class Interp:
         if text.startswith('ZeroSized: '):
             t = text[len('ZeroSized: '):]
             if t.startswith('{closure@'):
-                return Closure(t, [])
-            return FnItem(t)
+                return Closure(t, [], self.cur_env())
+            return FnItem(self.subst(t))
         if text == '()' or text.startswith('(): ()'):
             return UNIT
         if text in STD_CONSTS:
@@ -852,7 +870,7 @@ class Interp:
                 raise Unsupported('aggregate ' + rv[1])
             return v
         if k == 'closure':
-            return Closure(rv[1], [self.operand(body, loc, o) for o in rv[2]])
+            return Closure(rv[1], [self.operand(body, loc, o) for o in rv[2]], self.cur_env())
         if k == 'cast':
             v = self.operand(body, loc, rv[1])
             return self.cast(v, self.op_ty(body, rv[1]), rv[2], rv[3])
@@ -1093,17 +1111,70 @@ class Interp:
         raise Unsupported('cast ' + kind)
 
     # ---------------------------------------------------------------- calls
+    # ---- generic type environments (MIR is pre-monomorphisation: bodies mention their type parameters by name)
+    def cur_env(self):
+        return self.tyenv[-1] if self.tyenv else None
+
+    def subst(self, text):
+        env = self.cur_env()
+        if not env:
+            return text
+        return _subst_env(text, env)
+
+    def declared_generics(self, body):
+        """names of the type parameters declared on the fn item of a local body (read from the source)"""
+        r = self._generics_cache.get(id(body))
+        if r is not None:
+            return r
+        name = body.name.split('::')[-1]
+        files = []
+        if body.span:
+            files = [os.path.join(self.srcroot, body.span[0])]
+        else:
+            for dp, dn, fn in os.walk(os.path.join(self.srcroot, 'rust', 'ommx', 'src')):
+                files += [os.path.join(dp, f) for f in fn if f.endswith('.rs')]
+        out = []
+        for f in files:
+            try:
+                src = open(f).read()
+            except OSError:
+                continue
+            m = re.search(r'\bfn\s+' + re.escape(name) + r'\s*<([^>(]*)>\s*\(', src)
+            if m:
+                for part in split_top(m.group(1)):
+                    part = part.strip()
+                    if part.startswith("'") or part.startswith('const '):
+                        continue
+                    out.append(part.split(':')[0].strip())
+                break
+        self._generics_cache[id(body)] = out
+        return out
+
     def call(self, callee, argv, caller=None, loc=None):
+        callee = self.subst(callee)
         target = self.resolve(callee, argv, caller)
         if target[0] == 'body':
-            if len(target) > 2:
-                # provided trait method: remember what `Self` is while its generic body runs
-                self.self_stack.append(target[2])
-                try:
-                    return self.run_body(target[1], argv)
-                finally:
-                    self.self_stack.pop()
-            return self.run_body(target[1], argv)
+            b = target[1]
+            env = None
+            parts = split_top(callee, '::')
+            if parts and parts[-1].startswith('<') and not parts[-1].startswith('<impl'):
+                names = self.declared_generics(b)
+                args_ = [a for a in split_top(parts[-1][1:-1]) if not a.strip().startswith("'")]
+                if names and len(names) <= len(args_):
+                    # explicit generic arguments are printed after elided impl-trait ones; align from the front
+                    env = dict(zip(names, [a.strip() for a in args_]))
+            self.tyenv.append(env)
+            try:
+                if len(target) > 2:
+                    # provided trait method: remember what `Self` is while its generic body runs
+                    self.self_stack.append(target[2])
+                    try:
+                        return self.run_body(b, argv)
+                    finally:
+                        self.self_stack.pop()
+                return self.run_body(b, argv)
+            finally:
+                self.tyenv.pop()
         # library model
         return self.models.call(target[1], callee, argv, caller)
 
@@ -1117,7 +1188,11 @@ class Interp:
                 raise Unsupported('closure body not found: ' + f.name)
             first = b.param_tys[0].strip()
             selfarg = ref_to(f) if first.startswith('&') else f
-            return self.run_body(b, [selfarg] + list(args))
+            self.tyenv.append(f.env)
+            try:
+                return self.run_body(b, [selfarg] + list(args))
+            finally:
+                self.tyenv.pop()
         if isinstance(f, FnItem):
             return self.call(f.path, list(args), None)
         if callable(f):
